@@ -350,6 +350,30 @@ void drv_apply(const char* op)
     else if(!strcmp(op, "apparrv")) B[i]->toArray().append(*B[j]);
     else B[i]->toMap().append(mkstr(key, keyn), *B[j]);
   }
+  else if(!strcmp(op, "getc"))
+  {
+    // like get, but through the CONTAINER- / String-valued assignment operators: B[i] = (const List<Variant>&) that lives
+    // inside the last element of B[j]'s container (with i == j: the argument lives inside the value being replaced)
+    j = (int)tok_int();
+    logop = "get";
+    const Variant& src = *B[j];
+    const Variant* e = 0;
+    switch(src.getType())
+    {
+    case Variant::listType: if(!src.toList().isEmpty()) e = &src.toList().back(); break;
+    case Variant::arrayType: if(!src.toArray().isEmpty()) e = &src.toArray().back(); break;
+    case Variant::mapType: if(!src.toMap().isEmpty()) { HashMap<String, Variant>::Iterator it = src.toMap().end(); --it; e = &*it; } break;
+    default: break;
+    }
+    if(e)
+      switch(e->getType())
+      {
+      case Variant::listType: *B[i] = e->toList(); break;
+      case Variant::arrayType: *B[i] = e->toArray(); break;
+      case Variant::mapType: *B[i] = e->toMap(); break;
+      default: *B[i] = *e; break;
+      }
+  }
   else if(!strcmp(op, "get"))
   {
     j = (int)tok_int();
